@@ -17,7 +17,9 @@ Proof. unfold upd. intros H. destruct (N.eqb_spec j i); [contradiction|reflexivi
 Lemma mem_N_In x l : mem_N x l = true <-> In x l.
 Proof.
   induction l as [|y l IH]; simpl; [split; [discriminate|tauto]|].
-  rewrite orb_true_iff, IH. destruct (N.eqb_spec y x); split; intros; auto; tauto.
+  rewrite orb_true_iff, IH. destruct (N.eqb_spec y x); split; intros H; auto.
+  - destruct H as [H|H]; [discriminate|auto].
+  - destruct H as [H|H]; [contradiction|auto].
 Qed.
 
 Lemma remove_N_In x y l : In y (remove_N x l) <-> In y l /\ y <> x.
@@ -122,7 +124,7 @@ Proof.
       destruct Hr as [Hr Hne]. revert Hs. unfold upd.
       destruct (N.eqb_spec (r mod cap) (rev mod cap)) as [_|_].
       * intros [= <-]. simpl. congruence.
-      * apply Hex. exact Hr.
+      * apply (Hex t'). exact Hr.
     + intros i v. unfold upd. destruct (N.eqb_spec i (rev mod cap)) as [->|_].
       * intros [= <-]. simpl. repeat split; try lia.
       * apply Hsl.
@@ -138,8 +140,8 @@ Proof.
       destruct (N.eq_dec (r mod cap) (rev mod cap)) as [Heq|Hneq].
       * (* the held revision cannot collide with the one the sequencer is taking *)
         exfalso. destruct (Hsl _ _ Hs) as (_ & B & C & _). rewrite Hv in *.
-        assert (r = rev) by (apply (mod_cap_inj r rev (committed s)); unfold frontier in *; simpl in *; lia).
-        subst r. exact (Hex _ _ _ Hin Hs Hv).
+        assert (Hrr : r = rev) by (apply (mod_cap_inj r rev (committed s)); unfold frontier in *; simpl in *; lia).
+        rewrite Hrr in Hs, Hv. exact (Hex _ _ _ Hin Hs Hv).
       * exists v. rewrite upd_other by exact Hneq. auto.
 Qed.
 
@@ -163,19 +165,19 @@ Proof.
     constructor; unfold frontier; simpl; rewrite ?Hf0 in *.
     + lia.
     + lia.
-    + intros t r' Hin. specialize (Hh _ _ Hin). rewrite Hf0 in Hh.
+    + intros t r' Hin. specialize (Hh _ _ Hin).
       assert (r' <> r) by (intros ->; exact (Hex _ _ _ Hin Hs Hv)). lia.
     + exact Hnd.
     + exact Hdj.
     + intros t r' v' Hin. unfold upd. destruct (N.eqb_spec (r' mod cap) (r mod cap)); [discriminate|].
-      apply Hex. exact Hin.
+      apply (Hex t). exact Hin.
     + intros i v'. unfold upd. destruct (N.eqb_spec i (r mod cap)); [discriminate|].
-      intros Hs'. destruct (Hsl _ _ Hs') as (A & B & C & D). rewrite Hf0 in B.
+      intros Hs'. destruct (Hsl _ _ Hs') as (A & B & C & D). rewrite ?Hf0 in B.
       repeat split; auto. assert (sv_rev v' <> r); [|lia].
       intros Heq. apply n. rewrite <- A, Heq. reflexivity.
     + intros r' Hlo Hhi. destruct (Hacc r' ltac:(lia) Hhi) as [Hl|[v' [Hs' Hv']]]; [left; exact Hl|].
       right. exists v'. split; [|exact Hv']. rewrite upd_other; [exact Hs'|].
-      intros Heq. destruct (Hsl _ _ Hs') as (_ & B & C & _). rewrite Hv', Hf0 in *.
+      intros Heq. destruct (Hsl _ _ Hs') as (_ & B & C & _). rewrite ?Hf0 in B. rewrite Hv' in B, C.
       assert (r' = r) by (apply (mod_cap_inj _ _ (committed s)); lia). lia.
     + exact Er.
   - (* committed := r *)
@@ -274,45 +276,48 @@ Proof.
   { destruct (ri_slot s I _ _ Hv) as (A & B & C & _). unfold frontier in B. rewrite Hs in B.
     apply (mod_cap_inj _ _ (committed s)); lia. }
   pose proof (ri_slot s I _ _ Hv) as (_ & _ & _ & Hd).
-  cbv [seq_take_labels rrun fold_left].
-  unfold rstep at 5. unfold renabled. rewrite Hp. cbn [negb andb]. unfold r_seq at 1. rewrite Hs, Hv.
-  unfold rstep at 4. unfold renabled. cbn [rpanic set_seq negb andb]. rewrite Hp. cbn [negb andb].
-  unfold r_seq at 1. cbn [seq set_seq dealt committed slots held rlog rpanic].
-  unfold rstep at 3. unfold renabled. cbn [rpanic]. rewrite Hp. cbn [negb andb].
-  unfold r_seq at 1. cbn [seq dealt committed slots held rlog rpanic].
-  unfold rstep at 2. unfold renabled. cbn [rpanic]. rewrite Hp. cbn [negb andb].
-  unfold r_seq at 1. cbn [seq set_seq dealt committed slots held rlog rpanic].
-  unfold rstep at 1. unfold renabled. cbn [rpanic set_seq]. rewrite Hp. cbn [negb andb].
-  unfold r_seq at 1. cbn [seq set_seq dealt committed slots held rlog rpanic].
-  destruct (N.ltb_spec (dealt s) (sv_rev v)); [lia|].
-  cbn [seq set_seq dealt committed slots held rlog rpanic]. rewrite Erev. repeat split; auto.
+  assert (Hstep : forall x, rpanic x = false -> rstep x RSeq = r_seq x).
+  { intros x Hx. unfold rstep, renabled. rewrite Hx. reflexivity. }
+  set (r := sv_rev v) in *.
+  set (s1 := set_seq s (SqGot r)).
+  set (s2 := {| dealt := dealt s; committed := committed s; slots := upd (slots s) (r mod cap) None;
+                seq := SqStore r; held := held s; rlog := rlog s; rpanic := rpanic s |}).
+  set (s3 := {| dealt := dealt s; committed := r; slots := upd (slots s) (r mod cap) None;
+                seq := SqLoadDealt r; held := held s; rlog := rlog s; rpanic := rpanic s |}).
+  set (s4 := set_seq s3 (SqCas r (dealt s))).
+  set (s5 := set_seq s4 SqIdle).
+  assert (E1 : rstep s RSeq = s1).
+  { rewrite Hstep by exact Hp. unfold r_seq. rewrite Hs, Hv. reflexivity. }
+  assert (E2 : rstep s1 RSeq = s2) by (rewrite Hstep by exact Hp; reflexivity).
+  assert (E3 : rstep s2 RSeq = s3) by (rewrite Hstep by exact Hp; reflexivity).
+  assert (E4 : rstep s3 RSeq = s4) by (rewrite Hstep by exact Hp; reflexivity).
+  assert (E5 : rstep s4 RSeq = s5).
+  { rewrite Hstep by exact Hp. unfold r_seq. cbn [seq s4 set_seq].
+    match goal with |- context [?a <? ?b] => destruct (N.ltb_spec a b) as [Hlt|Hge] end; [|reflexivity].
+    exfalso. cbn in Hlt. lia. }
+  cbv [seq_take_labels rrun fold_left]. rewrite E1, E2, E3, E4, E5.
+  cbn. unfold r in *. rewrite Erev. repeat split; auto.
 Qed.
 
 (* ---------- uniqueness of allocated revisions ---------- *)
 
-Fixpoint incr_from (lo : N) (l : list N) : Prop :=
-  match l with
-  | [] => True
-  | x :: l' => lo < x /\ incr_from x l'
-  end.
-
 Definition dealt_desc (s : rstate) : list N :=
   flat_map (fun e => match e with RvDealt _ r => [r] | _ => [] end) (rlog s).
 
-(* newest first: strictly decreasing, all at most dealt *)
-Fixpoint decr_below (hi : N) (l : list N) : Prop :=
+(* newest first: strictly decreasing, all below hi *)
+Fixpoint sdecr (hi : N) (l : list N) : Prop :=
   match l with
   | [] => True
-  | x :: l' => x <= hi /\ match l' with [] => True | y :: _ => y < x end /\ decr_below x l'
+  | x :: l' => x < hi /\ sdecr x l'
   end.
 
 Record rloginv (s : rstate) : Prop := {
   rl_inv : rinv s;
-  rl_decr : decr_below (dealt s) (dealt_desc s)
+  rl_decr : sdecr (dealt s + 1) (dealt_desc s)
 }.
 
-Lemma decr_below_weaken hi hi' l : hi <= hi' -> decr_below hi l -> decr_below hi' l.
-Proof. destruct l; simpl; [auto|]. intros H (A & B & C). repeat split; auto; lia. Qed.
+Lemma sdecr_weaken hi hi' l : hi <= hi' -> sdecr hi l -> sdecr hi' l.
+Proof. destruct l; simpl; [auto|]. intros H (A & B). split; auto; lia. Qed.
 
 Lemma rloginv_step s l : rloginv s -> rloginv (rstep s l).
 Proof.
@@ -320,9 +325,7 @@ Proof.
   pose proof (dealt_step s l I) as Hd.
   unfold rstep in *. destruct (renabled s l) eqn:E; [|exact D].
   destruct l as [t|t rev valid|].
-  - unfold dealt_desc. simpl. fold (dealt_desc s). split; [lia|]. split.
-    + destruct (dealt_desc s) eqn:El; [auto|]. simpl in D. lia.
-    + eapply decr_below_weaken; [|exact D]. lia.
+  - unfold dealt_desc. simpl. fold (dealt_desc s). split; [lia|]. exact D.
   - unfold r_notify in *. destruct (rev =? 0); [exact D|]. destruct (cap <=? _); [exact D|].
     unfold dealt_desc. simpl. exact D.
   - assert (Hl : rlog (r_seq s) = rlog s).
@@ -336,13 +339,22 @@ Proof. induction ls as [|l ls IH]; intros s I; simpl; [exact I|]. apply IH, rlog
 Lemma rloginv_init d0 : rloginv (rinit d0).
 Proof. split; [apply rinv_init|simpl; auto]. Qed.
 
-Lemma decr_below_NoDup hi l : decr_below hi l -> NoDup l /\ Forall (fun x => x <= hi) l.
+Lemma sdecr_below hi l : sdecr hi l -> Forall (fun x => x < hi) l.
 Proof.
-  revert hi. induction l as [|x l IH]; intros hi; simpl; [split; constructor|].
-  intros (A & B & C). destruct (IH _ C) as [Hn Hf]. split.
-  - constructor; [|exact Hn]. intros Hin. rewrite Forall_forall in Hf.
-    destruct l as [|y l']; [contradiction|]. simpl in C. destruct C as (C1 & _ & _).
-    destruct Hin as [<-|Hin]; [lia|].
-    destruct (IH _ (conj C1 (conj (proj1 (proj2 (IH' := I) (conj I I))) I))) ; lia.
-  - constructor; [exact A|]. eapply Forall_impl; [|exact Hf]. simpl. intros; lia.
+  revert hi. induction l as [|x l IH]; intros hi; simpl; [constructor|].
+  intros (A & B). constructor; [exact A|]. eapply Forall_impl; [|apply IH, B]. simpl. intros; lia.
+Qed.
+
+Lemma sdecr_NoDup hi l : sdecr hi l -> NoDup l.
+Proof.
+  revert hi. induction l as [|x l IH]; intros hi; simpl; [constructor|].
+  intros (A & B). constructor; [|eapply IH, B].
+  intros Hin. pose proof (sdecr_below _ _ B) as F. rewrite Forall_forall in F. specialize (F _ Hin). lia.
+Qed.
+
+(* no two allocations ever return the same revision *)
+Theorem dealt_unique ls d0 : NoDup (dealt_revs (rrun ls (rinit d0))).
+Proof.
+  unfold dealt_revs. apply NoDup_rev.
+  eapply sdecr_NoDup. apply (rl_decr _ (rloginv_run ls _ (rloginv_init d0))).
 Qed.
